@@ -14,6 +14,9 @@ CONSTANTS Flows = {1, 2, 3}
           IdleMatters = TRUE
           CheckExpiry = TRUE
           WrapKeeps = TRUE
+          Routines <- NoRoutines
+          CachePeriod = 1
+          CacheSlack = 0
 INVARIANTS TypeOK PassPermitted EntryHasTimer SameReloadKeeps
 CONSTRAINT Bound
 VIEW View
